@@ -347,29 +347,30 @@ pub(crate) fn extract_title(line: &str) -> Option<(String, String)> {
 /// On the first line ending in foo, this function returns the backticks and
 /// the language. On all other lines it returns None.
 pub(crate) fn extract_code_block_start(line: &str) -> Option<(&str, &str, &str)> {
-    if line == "```" {
-        return Some((line, "", ""));
+    // tailing blanks are neither part of the language nor of the configuration
+    let line = line.trim_end();
+
+    // a code fence consists of at least three backticks ..
+    let language_start = line.find(|ch| ch != '`').unwrap_or(line.len());
+    if language_start < 3 {
+        return None;
     }
 
-    let mut language_start = None;
-    for (index, ch) in line.chars().enumerate() {
-        if let Some(language_start) = language_start {
-            if ch == '{' {
-                return Some((
-                    &line[0..language_start],
-                    (line[language_start..index].trim_end()),
-                    &line[index..],
-                ));
-            }
-        } else if ch != '`' {
-            if index < 2 {
-                return None;
-            }
-            language_start = Some(index);
-        }
+    // .. and what follows them cannot contain backticks (otherwise it is
+    // inline code at the start of a line of text)
+    let (backticks, info) = line.split_at(language_start);
+    if info.contains('`') {
+        return None;
     }
 
-    language_start.map(|index| (&line[0..index], &line[index..], ""))
+    match info.find('{') {
+        Some(config_start) => Some((
+            backticks,
+            info[..config_start].trim_end(),
+            &info[config_start..],
+        )),
+        None => Some((backticks, info, "")),
+    }
 }
 
 pub(crate) trait NumberedLines {
